@@ -390,6 +390,90 @@ def inline_value_calls(ctx: Ctx, f: Func, fn: ast.FunctionDef) -> bool:
     return changed
 
 
+def _returns_to_assignments(stmts: List[ast.stmt], target: str) -> Optional[List[ast.stmt]]:
+    """The statements with every `return E` turned into `target = E`, early returns turned into if/else nesting (what
+    follows an `if` whose branch returns is moved into the branch that goes on).  None when a return sits in a loop / try."""
+
+    def terminates(block: List[ast.stmt]) -> bool:
+        if not block:
+            return False
+        last = block[-1]
+        if isinstance(last, (ast.Return, ast.Raise)):
+            return True
+        return isinstance(last, ast.If) and bool(last.orelse) and terminates(last.body) and terminates(last.orelse)
+
+    def has_return(node: ast.AST) -> bool:
+        return any(isinstance(x, ast.Return) for x in ast.walk(node))
+
+    def conv(block: List[ast.stmt]) -> Optional[List[ast.stmt]]:
+        if not block:
+            return []
+        first, rest = block[0], block[1:]
+        if isinstance(first, ast.Return):
+            v = first.value if first.value is not None else ast.Constant(value=None)
+            return [ast.copy_location(ast.Assign(targets=[ast.Name(id=target, ctx=ast.Store())], value=v), first)]
+        if isinstance(first, ast.Raise):
+            return [first]
+        if isinstance(first, ast.If) and has_return(first):
+            b = conv(list(first.body) + ([] if terminates(first.body) else rest))
+            o = conv(list(first.orelse) + ([] if terminates(first.orelse) and first.orelse else rest))
+            if b is None or o is None:
+                return None
+            return [ast.copy_location(ast.If(test=first.test, body=b or [ast.Pass()], orelse=o), first)]
+        if has_return(first):
+            return None  # a return inside a loop / try / with
+        tail = conv(rest)
+        return None if tail is None else [first] + tail
+
+    return conv(stmts)
+
+
+def inline_multi_return_calls(ctx: Ctx, f: Func, fn: ast.FunctionDef) -> bool:
+    """`x = _helper(a, b)` (statement level, private module/class helper with several returns, none inside a loop):
+    the helper's body is written out with `return E` turned into `x = E`."""
+    changed = False
+
+    def block(stmts: List[ast.stmt]) -> List[ast.stmt]:
+        nonlocal changed
+        out: List[ast.stmt] = []
+        for st in stmts:
+            for fld in ("body", "orelse", "finalbody"):
+                v = getattr(st, fld, None)
+                if isinstance(v, list) and v and isinstance(v[0], ast.stmt):
+                    setattr(st, fld, block(v))
+            tgt = None
+            if isinstance(st, ast.Assign) and len(st.targets) == 1 and isinstance(st.targets[0], ast.Name):
+                tgt = st.targets[0].id
+            elif isinstance(st, ast.AnnAssign) and isinstance(st.target, ast.Name) and st.value is not None:
+                tgt = st.target.id
+            c = getattr(st, "value", None)
+            if tgt and isinstance(c, ast.Call) and not _inside_try(fn, st):
+                name = c.func.attr if isinstance(c.func, ast.Attribute) else (c.func.id if isinstance(c.func, ast.Name) else "")
+                m = _callee(ctx, f, c) if name.startswith("_") and not name.startswith("__") else None
+                if m is not None and m is not f and sum(1 for x in ast.walk(m.node) if isinstance(x, ast.Return)) >= 2:
+                    body = _instantiate(ctx, f, c, want_value=True)
+                    if body is not None:
+                        res = f"{tgt}__r"
+                        conv = _returns_to_assignments(body, res)
+                        if conv is not None:
+                            for x in conv:
+                                for y in ast.walk(x):
+                                    if hasattr(y, "lineno"):
+                                        y.lineno = st.lineno
+                                        y.end_lineno = getattr(st, "end_lineno", st.lineno)
+                            out.extend(conv)
+                            new = clone(st)
+                            new.value = ast.Name(id=res, ctx=ast.Load())
+                            out.append(new)
+                            changed = True
+                            continue
+            out.append(st)
+        return out
+
+    fn.body = block(fn.body)
+    return changed
+
+
 def unroll_literal_loops(fn: ast.FunctionDef, consts: Optional[Dict[str, ast.AST]] = None) -> bool:
     """consts: module-level names bound once to a tuple/list literal (a dispatch table iterated by the function)."""
     changed = False
@@ -875,6 +959,8 @@ def normalised(ctx: Ctx, f: Func, steps: str = "delegation,tailcalls,calls,unrol
             round_changed |= inline_call_statements(ctx, f, fn)
         if "valuecalls" in want:
             round_changed |= inline_value_calls(ctx, f, fn)
+        if "multiret" in want:
+            round_changed |= inline_multi_return_calls(ctx, f, fn)
         if "unroll" in want:
             mconsts = {k: v[0] for k, v in f.module.consts.items() if len(v) == 1 and isinstance(v[0], (ast.Tuple, ast.List))}
             round_changed |= unroll_literal_loops(fn, mconsts)
